@@ -23,6 +23,9 @@ Property theorems about the model of `BinEncoder` (`Model/Encoder.lean`) and of 
 * `LaidH` …              `emitName_laidH`, `LaidH.append/overwrite/mono`, `readName_of_LaidH`: the form in
                          which "this name decodes here" survives later appends and back-patches
                          (interface for the message-level proof of stage 2);
+* `InvPreserving`        emitters that keep the invariant, closed under `?`-sequencing, the mode guards
+                         and the RDLENGTH place/back-patch pattern (`invPreserving_*`): the building
+                         blocks from which `Record::emit` is assembled in stage 2;
 * `emitNames_readName`   emitting any list of (mode, name) pairs one after another from the empty
                          encoder: every one of them decodes back at its own start offset from the
                          final buffer.
@@ -30,6 +33,7 @@ Property theorems about the model of `BinEncoder` (`Model/Encoder.lean`) and of 
 Message-level round trip (`decode_encode`, `reencode_stable`, `rdata_preserved`) is stage 2.
 -/
 import HickoryVerif.Lemmas.NameEmitLemmas
+import HickoryVerif.Model.EncoderCombinators
 
 namespace HickoryVerif.C02
 open HickoryVerif HickoryVerif.Name
@@ -545,6 +549,105 @@ theorem emitName_no_panic (e : Enc) (n : Name) (hwf : n.WF) (happ : e.offset = e
         have := storeAll_spec e ls ls [] e1 [] e2 rfl hm (by rw [he1]; simp) (by simp) hs
         cases this with
         | miss news hm2 _ _ _ => exact emitRoot_no_panic hm2 s
+/-! ### emitters that keep the invariant (`InvPreserving`), closed under the emit combinators -/
+
+/-- `f` keeps the candidate-table invariant: from the appending state, for every footprint condition
+`H` that admits all runs starting at or above the current offset, a successful `f` re-establishes
+`PtrInvH H` in the appending state, does not move the offset down, and only appends to or
+back-patches the buffer it found (the old length is kept as a lower bound). -/
+def InvPreserving (f : Enc → ERes Unit) : Prop :=
+  ∀ (H : Nat × Nat → Prop) (e e' : Enc), e.offset = e.buf.length → PtrInvH H e →
+    (∀ a b, e.offset ≤ a → H (a, b)) → f e = .ok () e' →
+    PtrInvH H e' ∧ e'.offset = e'.buf.length ∧ e.offset ≤ e'.offset
+
+theorem invPreserving_emitSlice (d : Bytes) : InvPreserving (fun e => e.emitSlice d) := by
+  intro H e e' happ hinv _ h
+  obtain ⟨h1, h2, h3, _⟩ := ptrInvH_emitSlice e e' d happ hinv h
+  refine ⟨h1, h2, ?_⟩
+  rw [h2, h3, happ]; simp
+
+theorem invPreserving_emitU8 (v : Nat) : InvPreserving (fun e => e.emitU8 v) := invPreserving_emitSlice _
+theorem invPreserving_emitU16 (v : Nat) : InvPreserving (fun e => e.emitU16 v) := invPreserving_emitSlice _
+theorem invPreserving_emitU32 (v : Nat) : InvPreserving (fun e => e.emitU32 v) := invPreserving_emitSlice _
+
+theorem invPreserving_seq {f g : Enc → ERes Unit} (hf : InvPreserving f) (hg : InvPreserving g) :
+    InvPreserving (Enc.seq f g) := by
+  intro H e e' happ hinv hH h
+  unfold Enc.seq at h
+  cases hfe : f e with
+  | ok u e1 =>
+    rw [hfe] at h
+    obtain ⟨h1, h2, h3⟩ := hf H e e1 happ hinv hH hfe
+    obtain ⟨h4, h5, h6⟩ := hg H e1 e' h2 h1 (fun a b hab => hH a b (by omega)) h
+    exact ⟨h4, h5, by omega⟩
+  | err k e1 => rw [hfe] at h; simp at h
+  | panic s => rw [hfe] at h; simp at h
+
+theorem invPreserving_emitCharacterData (d : Bytes) : InvPreserving (fun e => e.emitCharacterData d) := by
+  intro H e e' happ hinv hH h
+  simp only [Enc.emitCharacterData] at h
+  split at h
+  · simp at h
+  · exact invPreserving_seq (invPreserving_emitU8 d.length) (invPreserving_emitSlice d) H e e' happ hinv hH h
+
+theorem invPreserving_emitName (n : Name) (hwf : n.WF) : InvPreserving (fun e => Name.emit e n) := by
+  intro H e e' happ hinv hH h
+  have hp := emit_post hwf happ hinv hH h
+  obtain ⟨F, hl, _⟩ := hp.laid
+  exact ⟨hp.inv, hp.app, Nat.le_of_lt hl.pos_lt_end⟩
+
+theorem invPreserving_restore {f : Enc → ERes Unit} (hf : InvPreserving f)
+    (m : NameEncoding → Bool → NameEncoding → NameEncoding) :
+    InvPreserving (fun e => Enc.restoreNameEncoding e.nameEncoding
+      (f { e with nameEncoding := m e.nameEncoding e.canonicalForm e.nameEncoding })) := by
+  intro H e e' happ hinv hH h
+  simp only at h
+  cases hfe : f { e with nameEncoding := m e.nameEncoding e.canonicalForm e.nameEncoding } with
+  | ok u e1 =>
+    rw [hfe] at h
+    simp only [Enc.restoreNameEncoding, ERes.ok.injEq, true_and] at h
+    subst h
+    obtain ⟨h1, h2, h3⟩ := hf H { e with nameEncoding := m e.nameEncoding e.canonicalForm e.nameEncoding } e1 happ hinv hH hfe
+    exact ⟨h1, h2, h3⟩
+  | err k e1 => rw [hfe] at h; simp [Enc.restoreNameEncoding] at h
+  | panic s => rw [hfe] at h; simp [Enc.restoreNameEncoding] at h
+
+theorem invPreserving_withNameEncoding {f : Enc → ERes Unit} (hf : InvPreserving f) (m : NameEncoding) :
+    InvPreserving (fun e => e.withNameEncoding m f) :=
+  invPreserving_restore hf (fun _ _ _ => m)
+
+theorem invPreserving_withRdataBehavior {f : Enc → ERes Unit} (hf : InvPreserving f) (r : RDataEncoding) :
+    InvPreserving (fun e => e.withRdataBehavior r f) :=
+  invPreserving_restore hf (fun _ c cur => Enc.rdataNameEncoding r c cur)
+
+/-- the RDLENGTH place is reserved above every footprint, the body only adds runs above the place,
+so the back-patch touches no footprint -/
+theorem invPreserving_lenPrefixed {body : Enc → ERes Unit} (hb : InvPreserving body) :
+    InvPreserving (Enc.lenPrefixed body) := by
+  intro H e e' happ hinv hH h
+  unfold Enc.lenPrefixed at h
+  cases hpl : e.place 2 with
+  | panic s => rw [hpl] at h; simp at h
+  | err k e1 => rw [hpl] at h; simp at h
+  | ok start e1 =>
+    rw [hpl] at h
+    simp only at h
+    obtain ⟨hst, happ1, hoff1, hinv1⟩ := ptrInvH_place e e1 2 start happ hinv hpl
+    cases hbody : body e1 with
+    | panic s => rw [hbody] at h; simp at h
+    | err k e2 => rw [hbody] at h; simp at h
+    | ok u e2 =>
+      rw [hbody] at h
+      simp only at h
+      obtain ⟨hinv2, happ2, hoff2⟩ := hb _ e1 e2 happ1 hinv1
+        (fun a b hab => ⟨hH a b (by omega), Or.inr (by simp only; omega)⟩) hbody
+      unfold Enc.lenSincePlace at h
+      rw [if_neg (by omega)] at h
+      simp only at h
+      have hin : start + 2 ≤ e2.buf.length := by omega
+      obtain ⟨hinv3, hoff3, hlen3, _⟩ := ptrInvH_placeReplace e2 e' start 2 _ (by simp) hin hinv2
+        (fun iv hiv => hiv.2) h
+      refine ⟨ptrInvH_mono hinv3 (fun iv _ _ hiv => hiv.1), by omega, by omega⟩
 /-! ### sequences of names -/
 
 /-- what a name written in mode `m` must decode to -/
